@@ -114,12 +114,14 @@ PROPS = {
     },
     'C10': {
         'level': 'proof',
+        'verus': [{'group': 'c10_bgsave'}],
         # "loadable": what the writer's length/fixed-width encoders emit must be what the reader decodes
         'kani': RDB_TOTAL_KANI + RDB_KANI,
         'explanation': 'corrupted-input clause only: read_length is total on arbitrary bytes (no panic, no read past the data, short read = error). Crash points and save/command interleavings are not decidable by function contracts here',
     },
     'C11': {
         'level': 'proof',
+        'verus': [{'group': 'c11_aof'}],
         'tables': [{'name': 'is_write_command', 'file': 'src/network/server.rs', 'fn': 'Server::is_write_command',
                     'expect_true': lambda names: set(names) & _t.write_catalogue(),
                     'why': 'a dispatched command is appended to the AOF iff it is a Redis write command (spec/write_catalogue.txt)'}],
